@@ -27,7 +27,7 @@ PROFILES = {
                  'p_syscap': 0.0, 'arr_scale': 0.6, 'p_ps': 0.0, 'p_cct': 0.3, 'disciplines': ['FIFO', 'FIFO', 'LIFO']},
     'c09': {'n_nodes': [2, 3, 3, 4], 'routing_kinds': ['tm', 'nr', 'nr', 'nr', 'pb', 'fpb', 'fpb'], 'p_ccm': 0.5,
             'node_routers': ['leave', 'direct', 'prob', 'jsq', 'jsq', 'lb', 'lb', 'cycle']},
-    'c10': {'p_batch': 0.6},
+    'c10': {'p_batch': 0.6, 'p_share_objects': 0.5, 'p_lattice': 0.55},
     'c09jsq': {'n_nodes': [2, 3, 3, 4], 'n_classes': [2, 3], 'routing_kinds': ['nr', 'nr', 'fpb'], 'node_routers': ['jsq', 'jsq', 'lb', 'jsq', 'prob'],
                'p_prio': 1.0, 'force_distinct_prio': True, 'p_prio_preempt': 1.0, 'prio_preempt_opts': ['reroute', 'reroute', 'resume', False],
                'p_kinds': (0.8, 0.0, 0.2, 0.0), 'sched_preempt': [False, 'reroute'], 'arr_scale': 0.6, 'p_ps': 0.25, 'p_qcap': 0.1},
